@@ -33,10 +33,14 @@ ASSUMPTIONS = [
 RULE = ('budget = 1-3 primary sources with independent layouts (column order, skip columns, extra captures or description template, delimiter , ; | tab, '
         'header or not, decimal . or ,, {amount}/{-amount}/{+amount}/negate_amount, CRLF/LF) + optional supplemental source + rules (.rules first_match / '
         'most_specific with variables, transforms, let, field, cross-source query; legacy CSV; none) + optional views + currency/output settings.  '
-        'Each budget runs fault-free (html and json) and once per (primary source, fault in absent / EACCES / EISDIR / EIO mid-read / invalid UTF-8).  '
+        'Each budget runs fault-free (html and json) and once per (primary source, fault in absent / EACCES / EISDIR / EIO mid-read / invalid UTF-8 / '
+        'content the csv module refuses / a transient read error that a second attempt would not meet - then the report is either the one without '
+        'that source, which is named, or the complete one).  One budget in five has a symbolic link in it (rules file, views file, a statement, the '
+        'config directory), one in four runs with TALLY_CONFIG naming another budget while the command line names this one, one source in 25 has '
+        '140-380 rows, views may define a variable the file also defines.  '
         'distinct_nontrivial counts distinct configuration vectors (n sources x delimiters x headers x decimals x signs x rules kind x mode x views x '
         'supplemental x fault kind) whose report had at least one categorised and one Unknown transaction.')
-FAULTS = ['absent', 'EACCES', 'EISDIR', 'EIO', 'bad-utf8', 'csv-error']
+FAULTS = ['absent', 'EACCES', 'EISDIR', 'EIO', 'bad-utf8', 'csv-error', 'EIO-once']
 NOTICE = re.compile(r"not found|error|cannot|can't|could not|couldn't|unreadable|failed|fail|unable|missing|skip|no such|invalid|denied|problem|warning", re.I)
 
 
@@ -58,6 +62,13 @@ def gen_case(rng, tier):
             if k == 'EIO':
                 # strictly inside the file, so that the read really fails
                 f['after'] = rng.randint(0, max(0, len(files[b['base'] + s['file']]) // 2))
+            if k == 'EIO-once':
+                # a transient hiccup (a second attempt would succeed): somewhere inside the file, or at the read that would report EOF
+                f['errno'] = rng.choice(['EIO', 'ESTALE', 'EAGAIN', 'EINTR', 'ETIMEDOUT'])
+                if rng.random() < 0.3:
+                    f['at_eof'] = True
+                else:
+                    f['after'] = rng.randint(1, max(1, len(files[b['base'] + s['file']]) - 1))
             if k == 'bad-utf8':
                 f['at'] = rng.random()
             if k == 'csv-error':
@@ -68,8 +79,18 @@ def gen_case(rng, tier):
             faults.append(f)
     if len(prim) > 1 and rng.random() < 0.3:
         faults.append({'source': '*', 'kind': 'absent'})
-    return {'budget': b, 'world': util.snap_to_json({r: c.encode('utf-8') for r, c in files.items()}), 'faults': faults,
-            'cfg': b['base'] + 'config'}
+    case = {'budget': b, 'faults': faults, 'cfg': b['base'] + 'config'}
+    if rng.random() < 0.2:
+        # parts of the budget are symbolic links (a synced folder, a shared rules file): a link is the file it points to
+        case['symlink'] = bm.add_symlinks(files, b, rng)
+    if rng.random() < 0.25:
+        # the environment names ANOTHER budget (TALLY_CONFIG left over from a different project); the command line names this one
+        files['elsewhere-budget/config/settings.yaml'] = ('year: 2025\ndata_sources:\n  - name: Decoy\n    file: data/decoy.csv\n'
+                                                          '    format: "{date:%m/%d/%Y},{description},{amount}"\n')
+        files['elsewhere-budget/data/decoy.csv'] = 'Date,Description,Amount\n01/02/2025,DECOY SHOP r9901,777.00\n'
+        case['env_decoy'] = True
+    case['world'] = util.snap_to_json({r: c.encode('utf-8') for r, c in files.items()})
+    return case
 
 
 # ----------------------------------------------------------------------------- model side
@@ -190,6 +211,9 @@ def apply_fault(root, f, snap):
         reads[f['file']] = {'kind': 'oserror', 'errno': 'EACCES'}
     elif f['kind'] == 'EIO':
         reads[f['file']] = {'kind': 'eio', 'after': f['after']}
+    elif f['kind'] == 'EIO-once':
+        reads[f['file']] = dict({'kind': 'eio', 'once': True, 'errno': f['errno']},
+                                **({'at_eof': True} if f.get('at_eof') else {'after': f['after']}))
     elif f['kind'] == 'bad-utf8':
         p = os.path.join(root, f['file'])
         data = snap[f['file']]
@@ -216,6 +240,7 @@ def execute(case, scratch):
     sets = {'vectors': set()}
     log = [['case', util.digest(case)]]
     snap = util.snap_from_json(case['world'])
+    lsnap = util.logical(snap)          # as programs see it (symbolic links followed)
     prim = [s for s in b['sources'] if not s['supplemental']]
     out_dir = b.get('output_dir') or 'output'
     html_name = b.get('html_filename') or 'spending_summary.html'
@@ -240,7 +265,10 @@ def execute(case, scratch):
     def run_up(fmt, reads, cwd='.'):
         carg = cfg if cwd == '.' else os.path.relpath(cfg, cwd)
         argv = ['up', carg] + (['--format', 'json', '-v'] if fmt == 'json' else [])
-        r = proc.run_cli(root, argv, {'net': 'down', 'reads': reads}, cwd=cwd, ctl_parent=ctlp)
+        plan = {'net': 'down', 'reads': reads}
+        if case.get('env_decoy'):
+            plan['env'] = {'TALLY_CONFIG': os.path.join(os.path.realpath(root), 'elsewhere-budget', 'config')}
+        r = proc.run_cli(root, argv, plan, cwd=cwd, ctl_parent=ctlp)
         count['sim_processes'] += 1
         return r
 
@@ -294,7 +322,7 @@ def execute(case, scratch):
             else:
                 # the fault is on a file: every source that reads that file fails
                 failing = [s['name'] for s in prim if b['base'] + s['file'] == f['file']]
-                reads = apply_fault(root, f, snap)
+                reads = apply_fault(root, f, lsnap)
             count['fired.' + f['kind']] = count.get('fired.' + f['kind'], 0) + 1
             cwd = '.'
             if f['kind'] == 'absent' and f['source'] != '*':
@@ -306,7 +334,7 @@ def execute(case, scratch):
                 if not os.path.exists(decoy) and os.path.normpath(os.path.join(cwd, src_rel)) != os.path.normpath(f['file']):
                     os.makedirs(os.path.dirname(decoy), exist_ok=True)
                     with open(decoy, 'wb') as fh:
-                        fh.write(snap[f['file']].replace(b' r', b' DECOY r'))
+                        fh.write(lsnap[f['file']].replace(b' r', b' DECOY r'))
                 elif cwd == 'elsewhere':
                     os.makedirs(os.path.join(root, cwd), exist_ok=True)
             try:
@@ -319,6 +347,19 @@ def execute(case, scratch):
             r = run_up(fmt, reads, cwd)
             text = r.out + '\n' + r.err
             log.append(['fault', f, fmt, cwd, r.exit, util.sha(util.norm_text(text, root))])
+            if f['kind'] == 'EIO-once':
+                if not any(e.get('k') == 'readfault' for e in r.events):
+                    count['not_fired.EIO-once'] = count.get('not_fired.EIO-once', 0) + 1
+                    continue
+                # the sources that met the hiccup and gave up are the ones the output names; every other source (a second source
+                # reading the same file opens it afresh; a reader that retried) must be in the report completely - each row once
+                gave_up = [nm for nm in failing if any(nm in ln and NOTICE.search(ln) for ln in text.split('\n'))]
+                if gave_up != failing:
+                    try:
+                        model = model_report(case, gave_up, root, ctlp)
+                    except ModelUnavailable:
+                        continue
+                    failing = gave_up
             if not model['txns']:
                 if r.exit == 0:
                     add('REP', 'all-sources-failed-exit-0', f['kind'], 'every source fails (%s) yet `tally up` exits 0' % failing, f)
